@@ -1,4 +1,4 @@
-//@unit tier=quick
+//@unit tier=quick isolation=yes
 // C04 (cover tree part): CoverTree::find_radius returns exactly the data points within the radius, provided the tree
 // satisfies the structural invariant `tree_wf` below and the distance obeys the triangle inequality on the data
 // points and the query (`metric_on`).  That CoverTree::new establishes `tree_wf` is NOT proved (assumption A-COVERTREE-NEW-WF).
